@@ -1,9 +1,579 @@
 /-
 Proofs/Perm — helper lemmas for C12 (order independence).
+
+The engine is characterised by *membership*: whether a rule application, a round or
+a run errs depends only on the set of facts and the set of rules it is given, and so
+does the set of facts it produces. Duplicate-free lists with the same members are
+permutations of each other (`List.perm_ext_iff_of_nodup`).
 -/
 import BiscuitModel.Proofs.Decision
 import BiscuitModel.Proofs.Authorizer
 
 namespace Biscuit
+
+set_option linter.unusedSectionVars false
+
+/-! ### Engine -/
+
+section Engine
+variable {V E : Type} [DecidableEq V]
+
+theorem solve_mem_mono {S S' : List (Fact V)} (h : ∀ f ∈ S, f ∈ S') :
+    ∀ (body : List (Pred V)) (σ τ : Bindings V), τ ∈ solve S body σ → τ ∈ solve S' body σ := by
+  intro body
+  induction body with
+  | nil => intro σ τ hτ; simpa [solve] using hτ
+  | cons p ps ih =>
+    intro σ τ hτ
+    simp only [solve, List.mem_flatMap] at hτ ⊢
+    obtain ⟨f, hf, hτ⟩ := hτ
+    refine ⟨f, h f hf, ?_⟩
+    cases hu : unifyPred p f σ with
+    | none => simp [hu] at hτ
+    | some σ₁ =>
+      rw [hu] at hτ
+      exact ih σ₁ τ hτ
+
+theorem solve_mem_congr {S S' : List (Fact V)} (h : ∀ f, f ∈ S ↔ f ∈ S')
+    (body : List (Pred V)) (σ τ : Bindings V) : τ ∈ solve S body σ ↔ τ ∈ solve S' body σ :=
+  ⟨solve_mem_mono (fun f => (h f).mp) body σ τ, solve_mem_mono (fun f => (h f).mpr) body σ τ⟩
+
+/-- A combination the consumer loop of `Rule.Apply` gets past without aborting. -/
+def comboOk (ev : Bindings V → E → Outcome Bool) (r : Rule V E) (σ : Bindings V) : Bool :=
+  match checkExprs ev σ r.exprs with
+  | .err _ => false
+  | .panic _ => false
+  | .ok false => true
+  | .ok true => (substHead r.head σ).isSome
+
+/-- The consumer loop aborts iff *some* combination aborts: independent of the order
+of the combinations and of the accumulator. -/
+theorem applyCombos_ok_iff (ev : Bindings V → E → Outcome Bool) (r : Rule V E) :
+    ∀ (cs : List (Bindings V)) (acc : List (Fact V)),
+    (applyCombos ev r cs acc).2 = none ↔ ∀ σ ∈ cs, comboOk ev r σ = true := by
+  intro cs
+  induction cs with
+  | nil => intro acc; simp [applyCombos]
+  | cons σ rest ih =>
+    intro acc
+    simp only [applyCombos, List.forall_mem_cons, comboOk]
+    cases hc : checkExprs ev σ r.exprs with
+    | err c => simp
+    | panic s => simp
+    | ok b =>
+      cases b with
+      | false => simpa [comboOk] using ih acc
+      | true =>
+        cases hs : substHead r.head σ with
+        | none => simp
+        | some f => simpa [comboOk] using ih (insertFact acc f)
+
+theorem applyCombos_nodup (ev : Bindings V → E → Outcome Bool) (r : Rule V E) :
+    ∀ (cs : List (Bindings V)) (acc : List (Fact V)), acc.Nodup →
+    (applyCombos ev r cs acc).1.Nodup := by
+  intro cs
+  induction cs with
+  | nil => intro acc h; simpa [applyCombos] using h
+  | cons σ rest ih =>
+    intro acc h
+    simp only [applyCombos]
+    split
+    · exact h
+    · exact h
+    · exact ih acc h
+    · split
+      · exact h
+      · exact ih _ (nodup_insertFact acc _ h)
+
+theorem applyRule_ok_iff (ev : Bindings V → E → Outcome Bool) (r : Rule V E)
+    (S acc : List (Fact V)) :
+    (applyRule ev r S acc).2 = none ↔ ∀ σ ∈ solve S r.body [], comboOk ev r σ = true :=
+  applyCombos_ok_iff ev r _ acc
+
+/-- Whether a rule application errs depends only on the set of facts it reads. -/
+theorem applyRule_ok_congr (ev : Bindings V → E → Outcome Bool) (r : Rule V E)
+    {S S' : List (Fact V)} (h : ∀ f, f ∈ S ↔ f ∈ S') (acc acc' : List (Fact V)) :
+    (applyRule ev r S acc).2 = none ↔ (applyRule ev r S' acc').2 = none := by
+  rw [applyRule_ok_iff, applyRule_ok_iff]
+  constructor
+  · intro hh σ hσ; exact hh σ ((solve_mem_congr h _ _ _).mpr hσ)
+  · intro hh σ hσ; exact hh σ ((solve_mem_congr h _ _ _).mp hσ)
+
+theorem eq_pair_none {α β : Type} (p : α × Option β) (h : p.2 = none) : p = (p.1, none) :=
+  Prod.ext rfl h
+
+theorem stepAll_ok_iff (ev : Bindings V → E → Outcome Bool) (S : List (Fact V)) :
+    ∀ (P : List (Rule V E)) (acc : List (Fact V)),
+    (stepAll ev S P acc).2 = none ↔
+      ∀ r ∈ P, ∀ σ ∈ solve S r.body [], comboOk ev r σ = true := by
+  intro P
+  induction P with
+  | nil => intro acc; simp [stepAll]
+  | cons r rs ih =>
+    intro acc
+    simp only [stepAll, List.forall_mem_cons]
+    rw [← applyRule_ok_iff ev r S acc]
+    cases hr : applyRule ev r S acc with
+    | mk acc' e =>
+      cases e with
+      | none => simpa using ih acc'
+      | some e => simp
+
+theorem Sat.congr {ev : Bindings V → E → Outcome Bool} {r : Rule V E} {S S' : List (Fact V)}
+    (h : ∀ f, f ∈ S ↔ f ∈ S') (σ : Bindings V) : Sat ev r S σ ↔ Sat ev r S' σ := by
+  constructor
+  · intro hs
+    exact ⟨fun p hp => (hs.body p hp).imp fun g hg => ⟨hg.1, (h g).mp hg.2⟩, hs.dom, hs.exprs⟩
+  · intro hs
+    exact ⟨fun p hp => (hs.body p hp).imp fun g hg => ⟨hg.1, (h g).mpr hg.2⟩, hs.dom, hs.exprs⟩
+
+/-- One round over the same set of facts and the same set of rules: errs or not
+alike, and derives the same set of new facts. -/
+theorem stepAll_congr (ev : Bindings V → E → Outcome Bool) (hev : EvRespects ev)
+    {S S' : List (Fact V)} {P P' : List (Rule V E)}
+    (hS : ∀ f, f ∈ S ↔ f ∈ S') (hP : ∀ r, r ∈ P ↔ r ∈ P') (new : List (Fact V))
+    (h : stepAll ev S P [] = (new, none)) :
+    ∃ new', stepAll ev S' P' [] = (new', none) ∧ ∀ f, f ∈ new ↔ f ∈ new' := by
+  have hok : (stepAll ev S' P' []).2 = none := by
+    rw [stepAll_ok_iff]
+    have h0 : (stepAll ev S P []).2 = none := by rw [h]
+    rw [stepAll_ok_iff] at h0
+    intro r hr σ hσ
+    exact h0 r ((hP r).mpr hr) σ ((solve_mem_congr hS _ _ _).mpr hσ)
+  refine ⟨(stepAll ev S' P' []).1, eq_pair_none _ hok, fun f => ?_⟩
+  rw [stepAll_spec ev hev S P [] new h f,
+    stepAll_spec ev hev S' P' [] _ (eq_pair_none _ hok) f]
+  constructor
+  · rintro (h' | ⟨r, hr, σ, hs, hh⟩)
+    · exact Or.inl h'
+    · exact Or.inr ⟨r, (hP r).mp hr, σ, (Sat.congr hS σ).mp hs, hh⟩
+  · rintro (h' | ⟨r, hr, σ, hs, hh⟩)
+    · exact Or.inl h'
+    · exact Or.inr ⟨r, (hP r).mpr hr, σ, (Sat.congr hS σ).mpr hs, hh⟩
+
+theorem length_eq_of_nodup_mem {α : Type} [DecidableEq α] {l l' : List α}
+    (h : l.Nodup) (h' : l'.Nodup) (hm : ∀ a, a ∈ l ↔ a ∈ l') : l.length = l'.length :=
+  ((List.perm_ext_iff_of_nodup h h').mpr hm).length_eq
+
+/-- A run over the same set of facts (both presentations duplicate-free) and the same
+set of rules succeeds alike and derives the same set of facts. -/
+theorem run_congr (ev : Bindings V → E → Outcome Bool) (hev : EvRespects ev)
+    (mf : Nat) {P P' : List (Rule V E)} (hP : ∀ r, r ∈ P ↔ r ∈ P') :
+    ∀ (n : Nat) (F F' W : List (Fact V)), F.Nodup → F'.Nodup → (∀ f, f ∈ F ↔ f ∈ F') →
+    run ev mf P n F = (W, none) →
+    ∃ W', run ev mf P' n F' = (W', none) ∧ W'.Nodup ∧ ∀ f, f ∈ W ↔ f ∈ W' := by
+  intro n
+  induction n with
+  | zero => intro F F' W _ _ _ h; simp [run] at h
+  | succ n ih =>
+    intro F F' W hn hn' hF h
+    simp only [run] at h
+    split at h
+    · simp at h
+    · next new hs =>
+      obtain ⟨new', hs', hnew⟩ := stepAll_congr ev hev hF hP new hs
+      have hN := nodup_insertAll new F hn
+      have hN' := nodup_insertAll new' F' hn'
+      have hmem : ∀ f, f ∈ insertAll F new ↔ f ∈ insertAll F' new' := by
+        intro f
+        rw [mem_insertAll, mem_insertAll, hF f, hnew f]
+      have hlen := length_eq_of_nodup_mem hN hN' hmem
+      have hlenF := length_eq_of_nodup_mem hn hn' hF
+      simp only [run, hs']
+      rw [← hlen, ← hlenF]
+      split at h
+      · simp at h
+      · next hlt =>
+        rw [if_neg hlt]
+        split at h
+        · next heq =>
+          rw [if_pos heq]
+          simp only [Prod.mk.injEq, and_true] at h
+          subst h
+          exact ⟨_, rfl, hN', hmem⟩
+        · next hne =>
+          rw [if_neg hne]
+          exact ih _ _ W hN hN' hmem h
+
+theorem insertFact_of_mem (s : List (Fact V)) (g : Fact V) (h : g ∈ s) : insertFact s g = s := by
+  unfold insertFact
+  rw [if_pos (by simpa using h)]
+
+theorem insertAll_of_subset : ∀ (new s : List (Fact V)), (∀ f ∈ new, f ∈ s) → insertAll s new = s
+  | [], s, _ => rfl
+  | g :: gs, s, h => by
+    rw [insertAll, insertFact_of_mem s g (h g (List.mem_cons_self ..))]
+    exact insertAll_of_subset gs s (fun f hf => h f (List.mem_cons_of_mem _ hf))
+
+/-- Running again from the result of a successful run, with a subset of the rules,
+stops after one round and returns the very same list. -/
+theorem run_again (ev : Bindings V → E → Outcome Bool) (hev : EvRespects ev)
+    (mf : Nat) (P P' : List (Rule V E)) (hP : ∀ r ∈ P', r ∈ P) (n : Nat) (F W : List (Fact V))
+    (h : run ev mf P n F = (W, none)) : run ev mf P' n W = (W, none) := by
+  cases n with
+  | zero => simp [run] at h
+  | succ n =>
+    obtain ⟨new, hs, hnew⟩ := run_fixpoint ev mf P (n + 1) F W h
+    have hlt := run_ok_lt ev mf P (n + 1) F W h
+    have hok : (stepAll ev W P' []).2 = none := by
+      rw [stepAll_ok_iff]
+      have h0 : (stepAll ev W P []).2 = none := by rw [hs]
+      rw [stepAll_ok_iff] at h0
+      intro r hr σ hσ
+      exact h0 r (hP r hr) σ hσ
+    have hs' := eq_pair_none _ hok
+    have hsub : ∀ f ∈ (stepAll ev W P' []).1, f ∈ W := by
+      intro f hf
+      rw [stepAll_spec ev hev W P' [] _ hs' f] at hf
+      rcases hf with hf | ⟨r, hr, σ, hsat, hh⟩
+      · cases hf
+      · apply hnew
+        rw [stepAll_spec ev hev W P [] new hs f]
+        exact Or.inr ⟨r, hP r hr, σ, hsat, hh⟩
+    have hins := insertAll_of_subset _ W hsub
+    rw [run, hs']
+    simp only [hins]
+    rw [if_neg (by omega)]
+    simp
+
+end Engine
+
+/-! ### Authorizer -/
+
+/-- Position-wise relation between two lists. -/
+inductive Pointwise {α β : Type} (R : α → β → Prop) : List α → List β → Prop
+  | nil : Pointwise R [] []
+  | cons {a b l l'} : R a b → Pointwise R l l' → Pointwise R (a :: l) (b :: l')
+
+theorem Pointwise.imp_mem {α β : Type} {R R' : α → β → Prop} {l : List α} {l' : List β}
+    (h : Pointwise R l l') : (∀ a ∈ l, ∀ b, R a b → R' a b) → Pointwise R' l l' := by
+  induction h with
+  | nil => intro _; exact Pointwise.nil
+  | cons hab _ ih =>
+    intro hh
+    exact Pointwise.cons (hh _ (List.mem_cons_self ..) _ hab)
+      (ih fun a ha b hr => hh a (List.mem_cons_of_mem _ ha) b hr)
+
+/-- Same queries / policies / blocks as sets. -/
+def SameQueries (c c' : Check) : Prop := ∀ q, q ∈ c.queries ↔ q ∈ c'.queries
+def SamePolicy (p p' : Policy) : Prop := p.kind = p'.kind ∧ ∀ q, q ∈ p.queries ↔ q ∈ p'.queries
+def SameBlock (b b' : Block) : Prop :=
+  (∀ f, f ∈ b.facts ↔ f ∈ b'.facts) ∧ (∀ r, r ∈ b.rules ↔ r ∈ b'.rules) ∧
+    Pointwise SameQueries b.checks b'.checks
+
+section Auth
+variable (cfg : EvalCfg)
+
+theorem any_queryHolds_congr {W W' : List DFact} (hW : ∀ f, f ∈ W ↔ f ∈ W')
+    {qs qs' : List DRule} (hq : ∀ q, q ∈ qs ↔ q ∈ qs')
+    (h : ∀ q ∈ qs, (applyRule (evalBool cfg) q W []).2 = none) :
+    qs.any (queryHolds cfg W) = qs'.any (queryHolds cfg W') := by
+  have h' : ∀ q ∈ qs', (applyRule (evalBool cfg) q W' []).2 = none := fun q hq' =>
+    (applyRule_ok_congr _ q hW [] []).mp (h q ((hq q).mpr hq'))
+  rw [Bool.eq_iff_iff, any_queryHolds_iff cfg W (fun g => g ∈ W) (fun _ => Iff.rfl) qs h,
+    any_queryHolds_iff cfg W' (fun g => g ∈ W) (fun f => (hW f).symm) qs' h']
+  constructor
+  · rintro ⟨q, hq1, hh⟩; exact ⟨q, (hq q).mp hq1, hh⟩
+  · rintro ⟨q, hq1, hh⟩; exact ⟨q, (hq q).mpr hq1, hh⟩
+
+theorem failedFrom_congr {W W' : List DFact} (mk : Nat → CheckId) {cs cs' : List Check}
+    (h : Pointwise (fun c c' => checkHolds cfg W c = checkHolds cfg W' c') cs cs') :
+    ∀ i, failedFrom cfg W mk cs i = failedFrom cfg W' mk cs' i := by
+  induction h with
+  | nil => intro i; rfl
+  | cons hab _ ih => intro i; simp only [failedFrom, hab, ih]
+
+theorem failedChecks_congr {W W' : List DFact} (hW : ∀ f, f ∈ W ↔ f ∈ W') (mk : Nat → CheckId)
+    {cs cs' : List Check} (hc : Pointwise SameQueries cs cs')
+    (h : ∀ c ∈ cs, ∀ q ∈ c.queries, (applyRule (evalBool cfg) q W []).2 = none) :
+    failedChecks cfg W mk cs = failedChecks cfg W' mk cs' := by
+  unfold failedChecks
+  apply failedFrom_congr
+  exact hc.imp_mem fun c hcm c' hcc' => any_queryHolds_congr cfg hW hcc' (h c hcm)
+
+theorem firstPolicy_congr {W W' : List DFact} (hW : ∀ f, f ∈ W ↔ f ∈ W')
+    {ps ps' : List Policy} (hp : Pointwise SamePolicy ps ps') :
+    (∀ p ∈ ps, ∀ q ∈ p.queries, (applyRule (evalBool cfg) q W []).2 = none) →
+    firstPolicy cfg W ps = firstPolicy cfg W' ps' := by
+  induction hp with
+  | nil => intro _; rfl
+  | @cons p p' l l' hpp _ ih =>
+    intro h
+    simp only [firstPolicy]
+    rw [any_queryHolds_congr cfg hW hpp.2 (h p (List.mem_cons_self ..)), hpp.1,
+      ih fun a ha => h a (List.mem_cons_of_mem _ ha)]
+
+theorem runWorld_run (lim : Limits) (W w : World) (e : Option RunErr)
+    (h : runWorld cfg lim W = (w, e)) :
+    run (evalBool cfg) lim.maxFacts W.rules lim.maxIter W.facts = (w.facts, e) ∧ w.rules = W.rules := by
+  unfold runWorld at h
+  simp only [Prod.mk.injEq] at h
+  obtain ⟨hw, he⟩ := h
+  subst hw
+  exact ⟨Prod.ext rfl he, rfl⟩
+
+theorem runWorld_of_run (lim : Limits) (W : World) (F : List DFact) (e : Option RunErr)
+    (h : run (evalBool cfg) lim.maxFacts W.rules lim.maxIter W.facts = (F, e)) :
+    runWorld cfg lim W = ({ W with facts := F }, e) := by
+  unfold runWorld
+  rw [h]
+
+/-- A run of two worlds with the same facts and rules as sets. -/
+theorem runWorld_congr (lim : Limits) (W W' v : World) (hn : W.facts.Nodup) (hn' : W'.facts.Nodup)
+    (hF : ∀ f, f ∈ W.facts ↔ f ∈ W'.facts) (hR : ∀ r, r ∈ W.rules ↔ r ∈ W'.rules)
+    (h : runWorld cfg lim W = (v, none)) :
+    ∃ v', runWorld cfg lim W' = (v', none) ∧ v.facts.Nodup ∧ v'.facts.Nodup ∧
+      ∀ f, f ∈ v.facts ↔ f ∈ v'.facts := by
+  obtain ⟨hrun, _⟩ := runWorld_run cfg lim W v none h
+  obtain ⟨F', hrun', hN', hmem⟩ :=
+    run_congr (evalBool cfg) (evalBool_respects cfg) lim.maxFacts hR lim.maxIter _ _ _ hn hn' hF hrun
+  exact ⟨_, runWorld_of_run cfg lim W' F' none hrun', run_nodup _ _ _ _ _ _ hn hrun, hN', hmem⟩
+
+theorem evalBlock_congr (lim : Limits) {base base' : List DFact} (hn : base.Nodup)
+    (hn' : base'.Nodup) (hB : ∀ f, f ∈ base ↔ f ∈ base') {b b' : Block} (hb : SameBlock b b')
+    (idx : Nat)
+    (h : ∃ wb, runWorld cfg lim { facts := insertAll base b.facts, rules := b.rules } = (wb, none) ∧
+      ∀ c ∈ b.checks, ∀ q ∈ c.queries, (applyRule (evalBool cfg) q wb.facts []).2 = none) :
+    evalBlock cfg lim base b idx = evalBlock cfg lim base' b' idx := by
+  obtain ⟨wb, hrun, hq⟩ := h
+  obtain ⟨wb', hrun', _, _, hmem⟩ := runWorld_congr cfg lim
+    { facts := insertAll base b.facts, rules := b.rules }
+    { facts := insertAll base' b'.facts, rules := b'.rules } wb
+    (nodup_insertAll _ _ hn) (nodup_insertAll _ _ hn')
+    (fun f => by
+      show f ∈ insertAll base b.facts ↔ f ∈ insertAll base' b'.facts
+      rw [mem_insertAll, mem_insertAll, hB f, hb.1 f])
+    hb.2.1 hrun
+  simp only [evalBlock, hrun, hrun']
+  rw [failedChecks_congr cfg hmem _ hb.2.2 hq]
+
+theorem blockPhase_congr (lim : Limits) {base base' : List DFact} (hn : base.Nodup)
+    (hn' : base'.Nodup) (hB : ∀ f, f ∈ base ↔ f ∈ base') {bs bs' : List Block}
+    (hbs : Pointwise SameBlock bs bs') :
+    BlocksComplete cfg lim base bs → ∀ (idx : Nat) (acc : List CheckId),
+    blockPhase cfg lim base bs idx acc = blockPhase cfg lim base' bs' idx acc := by
+  induction hbs with
+  | nil => intro _ idx acc; rfl
+  | @cons b b' l l' hb _ ih =>
+    intro hc idx acc
+    simp only [blockPhase]
+    rw [evalBlock_congr cfg lim hn hn' hB hb idx (hc b (List.mem_cons_self ..))]
+    cases evalBlock cfg lim base' b' idx with
+    | error e => rfl
+    | ok failed => exact ih (fun b0 hb0 => hc b0 (List.mem_cons_of_mem _ hb0)) _ _
+
+theorem authorityPhase_of_run (A : Block) (s : AuthState) (w2 : World)
+    (h : runWorld cfg s.limits
+      { facts := insertAll s.world.facts A.facts, rules := s.world.rules ++ A.rules } = (w2, none)) :
+    authorityPhase cfg A s =
+      ({ w2 with rules := [] },
+       .ok { world := { w2 with rules := [] },
+             failed := failedChecks cfg w2.facts CheckId.authorizer s.checks ++
+               failedChecks cfg w2.facts (CheckId.block 0) A.checks,
+             policy := firstPolicy cfg w2.facts s.policies }) := by
+  simp only [authorityPhase, h]
+
+theorem authorize_snd_of_run (tok : Token) (s : AuthState) (w2 : World)
+    (h : runWorld cfg s.limits
+      { facts := insertAll s.world.facts tok.authority.facts,
+        rules := s.world.rules ++ tok.authority.rules } = (w2, none)) :
+    (authorize cfg tok s).2 =
+      finish (firstPolicy cfg w2.facts s.policies)
+        (blockPhase cfg s.limits w2.facts tok.blocks 1
+          (failedChecks cfg w2.facts CheckId.authorizer s.checks ++
+            failedChecks cfg w2.facts (CheckId.block 0) tok.authority.checks)) := by
+  rw [authorize, authorizeWith_snd_ok cfg false tok s _ _ (authorityPhase_of_run cfg _ s w2 h)]
+
+/-- Order independence of `authorize`, set-level form. -/
+theorem authorize_same (tok tok' : Token) (s s' : AuthState)
+    (hf : WithinFragment cfg tok s) (hn : s.world.facts.Nodup) (hn' : s'.world.facts.Nodup)
+    (hA : SameBlock tok.authority tok'.authority)
+    (hbs : Pointwise SameBlock tok.blocks tok'.blocks)
+    (hF : ∀ f, f ∈ s.world.facts ↔ f ∈ s'.world.facts)
+    (hR : ∀ r, r ∈ s.world.rules ↔ r ∈ s'.world.rules)
+    (hc : Pointwise SameQueries s.checks s'.checks)
+    (hp : Pointwise SamePolicy s.policies s'.policies)
+    (hl : s.limits = s'.limits) :
+    (authorize cfg tok s).2 = (authorize cfg tok' s').2 := by
+  obtain ⟨w, hw⟩ := hf.authorityRun
+  obtain ⟨hqc, hqp⟩ := hf.authorityQueries w hw
+  have hblocks := hf.blockRuns w hw
+  obtain ⟨w', hw', hN, hN', hmem⟩ := runWorld_congr cfg s.limits
+    { facts := insertAll s.world.facts tok.authority.facts,
+      rules := s.world.rules ++ tok.authority.rules }
+    { facts := insertAll s'.world.facts tok'.authority.facts,
+      rules := s'.world.rules ++ tok'.authority.rules } w
+    (nodup_insertAll _ _ hn) (nodup_insertAll _ _ hn')
+    (fun f => by
+      show f ∈ insertAll s.world.facts tok.authority.facts ↔
+        f ∈ insertAll s'.world.facts tok'.authority.facts
+      rw [mem_insertAll, mem_insertAll, hF f, hA.1 f])
+    (fun r => by
+      show r ∈ s.world.rules ++ tok.authority.rules ↔ r ∈ s'.world.rules ++ tok'.authority.rules
+      rw [List.mem_append, List.mem_append, hR r, hA.2.1 r])
+    hw
+  rw [hl] at hw'
+  rw [authorize_snd_of_run cfg tok s w hw, authorize_snd_of_run cfg tok' s' w' hw', ← hl,
+    firstPolicy_congr cfg hmem hp hqp,
+    failedChecks_congr cfg hmem _ hc (fun c hc' => hqc c (List.mem_append_left _ hc')),
+    failedChecks_congr cfg hmem _ hA.2.2 (fun c hc' => hqc c (List.mem_append_right _ hc')),
+    blockPhase_congr cfg s.limits hN hN' hmem hbs hblocks]
+
+/-! ### Permuting the checks: only the number of failures is comparable -/
+
+theorem failedFrom_length (W : List DFact) (mk : Nat → CheckId) :
+    ∀ (cs : List Check) (i : Nat),
+    (failedFrom cfg W mk cs i).length = cs.countP (fun c => !checkHolds cfg W c)
+  | [], _ => rfl
+  | c :: cs, i => by
+    simp only [failedFrom, List.countP_cons]
+    cases hc : checkHolds cfg W c with
+    | true => simpa using failedFrom_length W mk cs (i + 1)
+    | false => simpa using failedFrom_length W mk cs (i + 1)
+
+theorem failedChecks_length_perm (W : List DFact) (mk mk' : Nat → CheckId) {cs cs' : List Check}
+    (h : cs.Perm cs') :
+    (failedChecks cfg W mk cs).length = (failedChecks cfg W mk' cs').length := by
+  unfold failedChecks
+  rw [failedFrom_length, failedFrom_length, h.countP_eq]
+
+/-- Outcome of the block loop up to the identity of the failures (and of the error). -/
+def lenOf : Except RunErr (List CheckId) → Option Nat
+  | .error _ => none
+  | .ok l => some l.length
+
+/-- Same facts and rules, checks permuted. -/
+def ChecksPermuted (b b' : Block) : Prop :=
+  b.facts = b'.facts ∧ b.rules = b'.rules ∧ b.checks.Perm b'.checks
+
+theorem evalBlock_lenOf (lim : Limits) (base : List DFact) {b b' : Block}
+    (hb : ChecksPermuted b b') (idx idx' : Nat) :
+    lenOf (evalBlock cfg lim base b idx) = lenOf (evalBlock cfg lim base b' idx') := by
+  obtain ⟨h1, h2, h3⟩ := hb
+  simp only [evalBlock, ← h1, ← h2]
+  cases hr : runWorld cfg lim { facts := insertAll base b.facts, rules := b.rules } with
+  | mk wb e =>
+    cases e with
+    | some e => rfl
+    | none =>
+      simp only [lenOf]
+      rw [failedChecks_length_perm cfg wb.facts _ (CheckId.block idx') h3]
+
+theorem blockPhase_lenOf (lim : Limits) (base : List DFact) {bs bs' : List Block}
+    (hbs : Pointwise ChecksPermuted bs bs') :
+    ∀ (idx idx' : Nat) (acc acc' : List CheckId), acc.length = acc'.length →
+    lenOf (blockPhase cfg lim base bs idx acc) = lenOf (blockPhase cfg lim base bs' idx' acc') := by
+  induction hbs with
+  | nil => intro idx idx' acc acc' h; simp only [blockPhase, lenOf, h]
+  | @cons b b' l l' hb _ ih =>
+    intro idx idx' acc acc' h
+    simp only [blockPhase]
+    have he := evalBlock_lenOf cfg lim base hb idx idx'
+    cases h1 : evalBlock cfg lim base b idx with
+    | error e =>
+      cases h2 : evalBlock cfg lim base b' idx' with
+      | error e' => rfl
+      | ok f' => rw [h1, h2] at he; cases he
+    | ok f =>
+      cases h2 : evalBlock cfg lim base b' idx' with
+      | error e' => rw [h1, h2] at he; cases he
+      | ok f' =>
+        rw [h1, h2] at he
+        simp only [lenOf, Option.some.injEq] at he
+        exact ih _ _ _ _ (by simp only [List.length_append, h, he])
+
+/-- Two outcomes of `finish` that agree up to the identity of the failures. -/
+def SameShape (v v' : Verdict) : Prop :=
+  (∃ e e', v = .runError e ∧ v' = .runError e') ∨
+  (∃ ids ids', v = .checksFailed ids ∧ v' = .checksFailed ids' ∧ ids.length = ids'.length) ∨
+  (∃ o, v = policyVerdict o ∧ v' = policyVerdict o)
+
+theorem finish_sameShape (pol : Option PolicyKind) (r r' : Except RunErr (List CheckId))
+    (h : lenOf r = lenOf r') : SameShape (finish pol r) (finish pol r') := by
+  cases r with
+  | error e =>
+    cases r' with
+    | error e' => exact Or.inl ⟨e, e', rfl, rfl⟩
+    | ok l' => cases h
+  | ok l =>
+    cases r' with
+    | error e' => cases h
+    | ok l' =>
+      simp only [lenOf, Option.some.injEq] at h
+      cases l with
+      | nil =>
+        cases l' with
+        | nil => exact Or.inr (Or.inr ⟨pol, rfl, rfl⟩)
+        | cons a' t' => simp at h
+      | cons a t =>
+        cases l' with
+        | nil => simp at h
+        | cons a' t' => exact Or.inr (Or.inl ⟨a :: t, a' :: t', rfl, rfl, h⟩)
+
+/-- Permuting the checks of the authorizer, of the authority block and of each later
+block keeps the shape of the verdict (no fragment hypothesis is needed). -/
+theorem authorize_checks_sameShape (A A' : Block) (bs bs' : List Block) (s : AuthState)
+    (cs' : List Check) (hA : ChecksPermuted A A') (hbs : Pointwise ChecksPermuted bs bs')
+    (hc : s.checks.Perm cs') :
+    SameShape (authorize cfg ⟨A, bs⟩ s).2 (authorize cfg ⟨A', bs'⟩ { s with checks := cs' }).2 := by
+  obtain ⟨h1, h2, h3⟩ := hA
+  cases hr : runWorld cfg s.limits
+      { facts := insertAll s.world.facts A.facts, rules := s.world.rules ++ A.rules } with
+  | mk w e =>
+    have hr' : runWorld cfg ({ s with checks := cs' } : AuthState).limits
+        { facts := insertAll ({ s with checks := cs' } : AuthState).world.facts A'.facts,
+          rules := ({ s with checks := cs' } : AuthState).world.rules ++ A'.rules } = (w, e) := by
+      rw [← h1, ← h2]; exact hr
+    cases e with
+    | some e =>
+      have e1 : authorityPhase cfg A s = (w, .error e) := by
+        simp only [authorityPhase, hr]
+      have e2 : authorityPhase cfg A' { s with checks := cs' } = (w, .error e) := by
+        simp only [authorityPhase, hr']
+      rw [authorize, authorize, authorizeWith_snd_err cfg false ⟨A, bs⟩ s w e e1,
+        authorizeWith_snd_err cfg false ⟨A', bs'⟩ _ w e e2]
+      exact Or.inl ⟨e, e, rfl, rfl⟩
+    | none =>
+      rw [authorize_snd_of_run cfg ⟨A, bs⟩ s w hr,
+        authorize_snd_of_run cfg ⟨A', bs'⟩ { s with checks := cs' } w hr']
+      apply finish_sameShape
+      apply blockPhase_lenOf cfg _ _ hbs
+      simp only [List.length_append]
+      rw [failedChecks_length_perm cfg w.facts _ CheckId.authorizer hc,
+        failedChecks_length_perm cfg w.facts _ (CheckId.block 0) h3]
+
+/-! ### Authorizing twice -/
+
+theorem authorize_fst_of_run (tok : Token) (s : AuthState) (w2 : World)
+    (h : runWorld cfg s.limits
+      { facts := insertAll s.world.facts tok.authority.facts,
+        rules := s.world.rules ++ tok.authority.rules } = (w2, none)) :
+    (authorize cfg tok s).1 = { s with world := { w2 with rules := [] }, dirty := true } := by
+  rw [authorize, authorizeWith_fst_false, authorityPhase_of_run cfg _ s w2 h]
+
+/-- Inside the fragment (in fact: as soon as the authority-level run succeeds), a second
+`Authorize` on the state left by the first returns the same verdict. -/
+theorem authorize_twice_run (tok : Token) (s : AuthState) (w : World)
+    (hw : runWorld cfg s.limits
+      { facts := insertAll s.world.facts tok.authority.facts,
+        rules := s.world.rules ++ tok.authority.rules } = (w, none)) :
+    (authorize cfg tok (authorize cfg tok s).1).2 = (authorize cfg tok s).2 := by
+  obtain ⟨hrun, _⟩ := runWorld_run cfg _ _ w none hw
+  have hsubA : ∀ f ∈ tok.authority.facts, f ∈ w.facts := fun f hf =>
+    run_subset _ _ _ _ _ _ _ hrun f ((mem_insertAll _ _ f).mpr (Or.inr hf))
+  have hagain := run_again (evalBool cfg) (evalBool_respects cfg) s.limits.maxFacts
+    (s.world.rules ++ tok.authority.rules) ([] ++ tok.authority.rules)
+    (fun r hr => List.mem_append_right _ (by simpa using hr)) s.limits.maxIter _ w.facts hrun
+  have hw1 : runWorld cfg s.limits
+      { facts := insertAll w.facts tok.authority.facts, rules := [] ++ tok.authority.rules } =
+      ({ facts := w.facts, rules := [] ++ tok.authority.rules }, none) := by
+    rw [insertAll_of_subset _ _ hsubA]
+    exact runWorld_of_run cfg s.limits { facts := w.facts, rules := [] ++ tok.authority.rules }
+      w.facts none hagain
+  rw [authorize_fst_of_run cfg tok s w hw,
+    authorize_snd_of_run cfg tok { s with world := { w with rules := [] }, dirty := true } _ hw1,
+    authorize_snd_of_run cfg tok s w hw]
+
+end Auth
 
 end Biscuit
